@@ -499,8 +499,17 @@ func substParams(e *Expr, args []*Expr) *Expr {
 	if !changed {
 		return e
 	}
+	if e.Op == "field" && len(na) == 1 && theProgram != nil {
+		return theProgram.Ex(nil).mkField(e.Name, e.Val, na[0]) // project through literals / constructors again
+	}
+	if (e.Op == "call" || e.Op == "invoke") && theProgram != nil {
+		return canonCall(&Expr{Op: e.Op, Name: e.Name, Args: na, Val: e.Val})
+	}
 	return &Expr{Op: e.Op, Name: e.Name, Args: na, Val: e.Val}
 }
+
+// theProgram: the program being analysed (for re-canonicalisation after substitution)
+var theProgram *Program
 
 // fieldOfAlloc projects a field out of a local struct cell that is only ever populated by field stores
 // (composite literal / field assignments): the single value stored to that field, if unambiguous.
@@ -831,7 +840,13 @@ func lenNorm(e *Expr) *Expr {
 	return e
 }
 
-func canonBin(op token.Token, a, b *Expr, v ssa.Value) *Expr { return lenNorm(canonBin0(op, a, b, v)) }
+func canonBin(op token.Token, a, b *Expr, v ssa.Value) *Expr {
+	// the index of a `for i := range xs` loop is built as phi(-1, i)+1; it is the same counter as `for i := 0; …; i++`
+	if op == token.ADD && a.Op == "phi" && a.Name == "μ" && len(a.Args) == 1 && a.Args[0].Op == "const" && a.Args[0].Name == "-1" && b.Op == "const" && b.Name == "1" {
+		return mk("phi", "μ", v, mk("const", "0", nil))
+	}
+	return lenNorm(canonBin0(op, a, b, v))
+}
 
 func canonBin0(op token.Token, a, b *Expr, v ssa.Value) *Expr {
 	switch op {
@@ -1000,6 +1015,10 @@ func canonCall(c *Expr) *Expr {
 			na := append([]*Expr{mk("const", "_", nil)}, c.Args[1:]...)
 			c = &Expr{Op: c.Op, Name: c.Name, Args: na, Val: c.Val}
 		}
+	}
+	if n == "go-ethereum/common.HexToAddress" && len(c.Args) == 1 && c.Args[0].Op == "call" && len(c.Args[0].Args) == 1 &&
+		(c.Args[0].Name == "go-ethereum/common.(Address).String" || c.Args[0].Name == "go-ethereum/common.(Address).Hex") {
+		return c.Args[0].Args[0] // parsing the printed form of an address gives the address back
 	}
 	switch {
 	case n == "bytes.Equal" && two:
